@@ -242,3 +242,97 @@ def run_pair(exe, text, env=None):
     impl, rc, err = vcheck.run_impl(exe, [], text, env=env)
     model = vcheck.run_model("tape", text)
     return impl, model, rc, err
+
+
+# ------------------------------------------------------------------ independent derivative oracle (textbook forward mode)
+UNDEF = "undefined"   # gradient of a default-constructed, never assigned active scalar (documented as undefined)
+
+
+def _dadd(a, b, sb=1):
+    if UNDEF in a or UNDEF in b:
+        return {UNDEF: 1}
+    g = dict(a)
+    for k, v in b.items():
+        g[k] = g.get(k, 0) + sb * v
+    return g
+
+
+def _dscale(a, c):
+    if UNDEF in a:
+        return {UNDEF: 1}
+    return {k: c * v for k, v in a.items()}
+
+
+def _deval(toks, pos, env):
+    """evaluate a prefix expression over (value, gradient-dict) pairs; returns ((val, grad), next position)"""
+    t = toks[pos]
+    if t[0] == "v":
+        return env[int(t[1:])], pos + 1
+    if t[0] == "c":
+        return (int(t[1:]), {}), pos + 1
+    if t == "neg":
+        (v, g), p = _deval(toks, pos + 1, env)
+        return (-v, _dscale(g, -1)), p
+    (v1, g1), p = _deval(toks, pos + 1, env)
+    (v2, g2), p = _deval(toks, p, env)
+    if t == "add":
+        return (v1 + v2, _dadd(g1, g2)), p
+    if t == "sub":
+        return (v1 - v2, _dadd(g1, g2, -1)), p
+    if t == "mul":
+        return (v1 * v2, _dadd(_dscale(g1, v2), _dscale(g2, v1))), p
+    raise ValueError(t)
+
+
+def dual_eval(ops, impl_lines):
+    """Textbook forward-mode evaluation of a driver program over exact integers, independent of Adept and of the
+    Lean model.  Variables live at the last `nr` are the inputs.  Returns (env, inputs) with env[h] = (value, {input: d})
+    or None if the program pauses recording (derivatives are then stale by design)."""
+    env, inputs = {}, []
+    before = {}     # gradient a variable had before the statement that last assigned it (an appended dependence on
+                    # the variable itself refers to that, exactly as the linear statement d[k] = ... + m*d[k] does)
+    for o, l in zip(ops, impl_lines):
+        w = o.split()
+        c = w[0]
+        records = (c in ("new", "newc", "setp", "asg", "cmul", "adep")
+                   or (c in ("cadd", "csub") and len(w) > 2 and w[2][0] == "v"))
+        if records:
+            k0 = int(w[1])
+            # a dependence of a freshly constructed variable on itself refers to whatever its (possibly recycled)
+            # slot held before: undefined, not judged
+            before[k0] = env[k0][1] if k0 in env else {UNDEF: 1}
+        if c in ("pause", "cont"):
+            return None
+        if c == "new":
+            env[int(w[1])] = (int(w[2]), {})
+        elif c == "newd":
+            env[int(w[1])] = (0, {UNDEF: 1})
+        elif c == "newc":
+            env[int(w[1])] = env[int(w[2])]
+        elif c == "del":
+            env.pop(int(w[1]), None)
+        elif c == "setp":
+            env[int(w[1])] = (int(w[2]), {})
+        elif c == "nr":
+            inputs = sorted(h for h in env if UNDEF not in env[h][1])
+            env = {h: (env[h][0], {h: 1} if UNDEF not in env[h][1] else env[h][1]) for h in env}
+        elif c == "asg":
+            env[int(w[1])] = _deval(w[2:], 0, env)[0]
+        elif c in ("cadd", "csub", "cmul"):
+            k = int(w[1]); v, g = env[k]
+            if w[2][0] == "c":
+                y = int(w[2][1:])
+                env[k] = (v + y, g) if c == "cadd" else (v - y, g) if c == "csub" else (v * y, _dscale(g, y))
+            else:
+                v2, g2 = env[int(w[2][1:])]
+                env[k] = ((v + v2, _dadd(g, g2)) if c == "cadd" else (v - v2, _dadd(g, g2, -1)) if c == "csub"
+                          else (v * v2, _dadd(_dscale(g, v2), _dscale(g2, v))))
+        elif c == "adep":
+            k, i, m = int(w[1]), int(w[2]), int(w[3])
+            env[k] = (env[k][0], _dscale(env[i][1], m))
+        elif c == "apdep":
+            if l == "ok":       # a failed append (wrong_gradient) changes nothing
+                k, i, m = int(w[1]), int(w[2]), int(w[3])
+                gi = before.get(k, {}) if i == k else env[i][1]
+                env[k] = (env[k][0], _dadd(env[k][1], _dscale(gi, m)))
+    return env, inputs
